@@ -593,14 +593,15 @@ class ModuleFlow:
     """Provenance over a whole module: attributes are tracked by name (object-insensitive), module-level functions by the
     join of what they return (memoised, recursion-guarded).  Used for the key classes of mapping-typed fields."""
 
-    def __init__(self, module):
+    def __init__(self, module, norm=None):
         self.m = module
+        self.norm = dict(norm or {})
         self.attr_env = {}
         self._ret, self._busy = {}, set()
         fns = [f for q, f in module.functions.items()]
         for _ in range(3):
             before = dict(self.attr_env)
-            self.provs = {id(f): Provenance(f, {}, self.attr_env, self.ret_shape) for f in fns}
+            self.provs = {id(f): Provenance(f, self.norm, self.attr_env, self.ret_shape) for f in fns}
             if self.attr_env == before:
                 break
 
@@ -614,7 +615,7 @@ class ModuleFlow:
             return "bot"
         self._busy.add(name)
         try:
-            pv_ = Provenance(fn, {}, self.attr_env, self.ret_shape)
+            pv_ = Provenance(fn, self.norm, self.attr_env, self.ret_shape)
             out = "bot"
             for _ln, sh in pv_.sinks("return"):
                 out = sjoin(out, sh)
@@ -634,7 +635,7 @@ class ModuleFlow:
         fn = self.enclosing(expr)
         if fn is None:
             return "raw"
-        return Provenance(fn, {}, self.attr_env, self.ret_shape).ev(expr)
+        return Provenance(fn, self.norm, self.attr_env, self.ret_shape).ev(expr)
 
 
 def shape_has_dict(shape):
